@@ -190,6 +190,13 @@ class DictV:
         return DictV(self.dom, self.val)
 
 
+class DictItems:
+    """d.items() of a symbolic dict (only iterated)"""
+
+    def __init__(self, d):
+        self.d = d
+
+
 class Obj:
     def __init__(self, cls, fields=None, name=None):
         self.cls = cls
